@@ -8,9 +8,11 @@ import sys
 import uuid as _uuid_mod
 
 VERIF_ROOT = os.path.dirname(os.path.dirname(os.path.abspath(__file__)))
-OUT_DIR = os.path.join(VERIF_ROOT, "out")
+OUT_DIR = os.environ.get("VERIF_OUT_DIR") or os.path.join(VERIF_ROOT, "out")
 REPLAY_DIR = os.path.join(OUT_DIR, "replays")
-EVIDENCE_DIR = os.path.join(VERIF_ROOT, "evidence")
+# (VERIF_EVIDENCE_DIR: runs against a mutated / seeded copy of the library
+# must not overwrite the evidence of the real tree)
+EVIDENCE_DIR = os.environ.get("VERIF_EVIDENCE_DIR") or os.path.join(VERIF_ROOT, "evidence")
 FINDINGS_FILE = os.path.join(VERIF_ROOT, "known_findings.json")
 PYTHON = "/venv/bin/python"
 HASHSEED_CLASSES = 4
